@@ -235,6 +235,59 @@ func (un *universe) composites() []cadence.Value {
 	return out
 }
 
+// attachmentsAndMixes: composites carrying 0-3 attachments (struct and resource
+// bases, attachments with and without fields) and the Mix structs with nil and
+// non-nil optional fields.
+func (un *universe) attachmentsAndMixes() []cadence.Value {
+	p := un.p
+	att := func(t *cadence.AttachmentType, fs ...cadence.Value) cadence.Attachment {
+		if fs == nil {
+			fs = []cadence.Value{}
+		}
+		return cadence.NewAttachment(fs).WithType(t)
+	}
+	a, a0, a2 := att(p.A, cadence.NewInt(7)), att(p.A0), att(p.A2, str("z"))
+	ar, ar0 := att(p.AR, cadence.NewInt(8)), att(p.AR0)
+	sWith := func(as ...cadence.Value) cadence.Struct {
+		return cadence.NewStruct(append([]cadence.Value{cadence.NewInt(2), str("att")}, as...)).WithType(p.S)
+	}
+	rWith := func(as ...cadence.Value) cadence.Resource {
+		return cadence.NewResource(append([]cadence.Value{cadence.UInt64(5), p.NewS(1, "a")}, as...)).WithType(p.R)
+	}
+	out := []cadence.Value{
+		a0, a2, ar, ar0,
+		sWith(a0), sWith(a2), sWith(a, a0), sWith(a0, a), sWith(a, a2), sWith(a, a0, a2), sWith(a2, a0, a),
+		rWith(ar), rWith(ar0), rWith(ar, ar0), rWith(ar0, ar),
+		p.NewBox(sWith(a, a0)),
+		arr(cadence.NewVariableSizedArrayType(p.S), sWith(), sWith(a), sWith(a, a0, a2)),
+	}
+	leaf := cadence.NewStruct([]cadence.Value{cadence.NewInt(1)}).WithType(p.Leaf)
+	out = append(out, leaf)
+	for i, t := range p.Mix {
+		abstracts := []cadence.Value{p.NewS(1, "a")}
+		if i < len(MixOrders) { // M family: AnyStruct
+			abstracts = append(abstracts, cadence.NewInt(1), cadence.NewOptional(nil))
+		}
+		for _, av := range abstracts {
+			for _, ov := range []cadence.Value{cadence.NewOptional(nil), cadence.NewOptional(leaf)} {
+				var vs []cadence.Value
+				for _, f := range Fields(t) {
+					switch f.Identifier {
+					case "a":
+						vs = append(vs, av)
+					case "c":
+						vs = append(vs, cadence.NewInt(7))
+					case "o":
+						vs = append(vs, ov)
+					}
+				}
+				out = append(out, cadence.NewStruct(vs).WithType(t))
+			}
+		}
+	}
+	return out
+}
+
 func (un *universe) rangesV() []cadence.Value {
 	r := func(t cadence.Type, a, b, c cadence.Value) cadence.Value {
 		return cadence.NewInclusiveRange(a, b, c).WithType(cadence.NewInclusiveRangeType(t))
@@ -398,6 +451,7 @@ func Values(depth int) []cadence.Value {
 	out = append(out, un.rangesV()...)
 	out = append(out, un.composites()...)
 	out = append(out, un.capabilities()...)
+	out = append(out, un.attachmentsAndMixes()...)
 	types := un.typesLocked(depth)
 	for _, t := range types {
 		out = append(out, cadence.NewTypeValue(t))
